@@ -81,13 +81,15 @@ def run(files, pid):
     LAST_GEN = gen
     obls = []
     missing = {e["function"]: e["error"] for e in gen["errors"]}
+    missing_defs = {d: e for e in gen["errors"] for d in e.get("defs", [])}
     if gen["rc"] != 0:
         # generated definitions do not even elaborate: every theorem is undecided
         obls.append({"name": "lean:Gen.lean elaborates", "function": "py2lean", "verdict": "unknown", "backend": "lean", "kind": "generation",
                      "ms": gen["secs"] * 1000, "output": gen["out"][:1500]})
         return obls
     if gen.get("common_rc", 0) != 0 or "error" in gen.get("common_out", ""):
-        obls.append({"name": "lean:Common.lean (shared lemmas about generated definitions) checks", "function": "Common.lean", "verdict": "failed", "backend": "lean",
+        # with definitions missing from the generation, a failure of the shared lemmas decides nothing
+        obls.append({"name": "lean:Common.lean (shared lemmas about generated definitions) checks", "function": "Common.lean", "verdict": "unknown" if missing_defs else "failed", "backend": "lean",
                      "kind": "lean-theorem", "ms": 0.0, "output": gen.get("common_out", "")[:1500]})
         return obls
     for f in files:
@@ -133,6 +135,10 @@ def run(files, pid):
             bad = nm in errs or "<file>" in errs
             text = "\n".join(lines[a - 1:b])
             undecided = bad and any(("unknown identifier" in e or "unknown constant" in e or "Unknown identifier" in e or "Unknown constant" in e) for e in errs.get(nm, []) + errs.get("<file>", [])) and missing
+            # a theorem that mentions a definition the generator could not produce from the current source is undecided, whatever Lean says about it
+            gone = [d for d in missing_defs if re.search(rf"(?<![A-Za-z0-9_'.]){re.escape(d)}(?![A-Za-z0-9_'])", text)]
+            if bad and gone:
+                undecided = True
             obls.append({"name": f"lean:{f}:{nm}" + (f" — {desc}" if desc else ""), "function": f, "verdict": "unknown" if undecided else ("failed" if bad else "proved"),
                          "backend": "lean", "kind": "lean-theorem", "ms": secs * 1000 / max(1, len(thms)),
                          "output": "\n".join(errs.get(nm, []) + errs.get("<file>", []))[:1500] if bad else None,
